@@ -172,6 +172,20 @@ def render_linear(r, sp, terms, const=0.0, deep=0):
                 parts.append(["lincomb", cs, inner])
                 used |= set(names)
                 continue
+            if r.random() < 0.15 and len(cs) >= 2:
+                # the same block written through a constant matrix: 1' (A @ v), with A's rows adding up to cs
+                # (even-index coefficients in row 0, odd-index ones in row 1), or w' (A @ v) with a third zero row
+                A = [[c if j % 2 == i else 0.0 for j, c in enumerate(cs)] for i in range(2)]
+                if r.random() < 0.5:
+                    parts.append(["vsum", ["matvec", A, vec]])
+                else:
+                    parts.append(["lincomb", [1.0, 1.0, r.choice([0.0, 2.0])], ["matvec", A + [[0.0] * len(cs)], vec]])
+                used |= set(names)
+                continue
+            if vec[0] == "mdiag" and all(c == 1.0 for c in cs) and r.random() < 0.5:
+                parts.append(["trace", vec[1]])
+                used |= set(names)
+                continue
             if all(c == 1.0 for c in cs) or r.random() < 0.25:
                 if all(c == 1.0 for c in cs):
                     parts.append(["vsum", vec])
@@ -281,17 +295,24 @@ def gen_vecquad(r, sp):
     vec, names = r.choice(vhs)
     n = len(names)
     k = r.random()
-    if k < 0.4:
+    if k < 0.35:
         e = ["dot", vec, vec]
-    elif k < 0.8:
+    elif k < 0.7:
         Q = [[0.0] * n for _ in range(n)]
         for i in range(n):
             Q[i][i] = r.choice([1.0, 2.0, 3.0])
         if n >= 2 and r.random() < 0.5:
             Q[0][1] = Q[1][0] = 0.5
         e = ["quad", vec, Q]
-    else:
+    elif k < 0.9:
         e = ["dot", ["vshift", vec, -r.choice([0.5, 1.0, 2.0])], ["vshift", vec, -1.0]]
+    else:
+        Q = [[0.0] * n for _ in range(n)]
+        for i in range(n):
+            Q[i][i] = r.choice([1.0, 2.0, 3.0])
+        if n >= 2 and r.random() < 0.5:
+            Q[0][1] = r.choice([0.5, 1.0])  # not symmetric as written
+        e = ["qform", vec if r.random() < 0.5 else ["vshift", vec, -r.choice([0.5, 1.0])], Q]
     lin = render_linear(r, sp, lin_terms(r, names, 1, 2), r.choice([0.0, 0.0, 3.0]))
     return ["+", e, lin] if r.random() < 0.7 else ["-", e, lin]
 
@@ -301,6 +322,27 @@ def gen_nonlinear(r, sp, names, positive_names, params=None):
     n = r.choice(names)
     leaf = ref_of(sp, n)
     k = r.random()
+    vhs = vec_handles(sp["vars"])
+    if vhs and r.random() < 0.18:
+        vec, _ = r.choice(vhs)
+        mats = [d for d in sp["vars"] if d["kind"] == "matrix"]
+        j = r.random()
+        if j < 0.25:
+            extra = ["norm", ["vshift", vec, -r.choice([0.5, 1.5])], r.choice([1, 2, 2])]
+        elif j < 0.4:
+            extra = ["norm", vec, r.choice([1, 2])]
+        elif j < 0.6:
+            extra = ["vsum", ["vfn", r.choice(["exp", "cosh", "tanh"]), ["vscale", vec, 0.5]]]
+        elif j < 0.8:
+            extra = ["vsum", ["vpow", ["vshift", vec, -r.choice([0.5, 1.0])], r.choice([2, 4])]]
+        elif mats and S.vec_len(sp, vec) == mats[0]["cols"] and [v for v, nm in vhs if len(nm) == mats[0]["rows"]]:
+            d = mats[0]
+            other = [v for v, nm in vhs if len(nm) == d["rows"]]
+            extra = ["*", ["num", 0.1], ["dot", ["mvprod", d["name"], vec], r.choice(other)]]
+        else:
+            n = S.vec_len(sp, vec)
+            extra = ["dot", ["matvec", [[1.0 if i == j2 else (0.5 if j2 == i + 1 else 0.0) for j2 in range(n)] for i in range(n)], vec], vec]
+        return ["+", base, extra]
     if r.random() < 0.12:
         # a pole or a domain edge inside the box: solvers step onto it and terminate abnormally
         extra = r.choice([["/", ["num", r.choice([1.0, -2.0])], leaf], ["fn", "log", leaf], ["fn", "sqrt", leaf],
@@ -352,6 +394,14 @@ def gen_vec_con(r, sp):
         return None
     vec, names = r.choice(vhs)
     sense = r.choice(["<=", ">="])
+    if r.random() < 0.3 and len(names) >= 2:
+        # A @ v <= b / A @ v >= b with a constant array and a vector of right-hand sides
+        rows = r.choice([1, 2, 2, 3])
+        A = [[r.choice([0.0, 1.0, 1.0, 2.0, -1.0, 0.5]) for _ in names] for _ in range(rows)]
+        if r.random() < 0.3:
+            A[-1] = [0.0] * len(names)  # an empty row: 0 <= b (or 0 >= b)
+        b = [r.choice([2.0, 3.0, 6.0, 8.0]) if sense == "<=" else r.choice([-2.0, 0.0, 0.5, 1.0]) for _ in range(rows)]
+        return {"k": "v", "lhs": ["matvec", A, vec if r.random() < 0.8 else ["vshift", vec, r.choice([-1.0, 0.5])]], "sense": sense, "rhs": b}
     if r.random() < 0.3:
         # exactly the declared bound, written again as explicit constraints (x >= 0 on a vector with lb=0)
         at = S.elem_attrs(S.new_shadow(sp))[names[0]]
@@ -460,6 +510,20 @@ def gen_pool(r, kinds=("lin", "quad", "nl"), layout=None, int_frac=0.0, nobj=5, 
         ckinds["cm"] = "lin"
         sp["cons"]["cn"] = {"k": "m", "lhs": ["mat", d["name"]], "sense": ">=", "rhs": lb + 0.25 * (ub - lb)}
         ckinds["cn"] = "lin"
+    if mats and mats[0]["rows"] == mats[0]["cols"] and r.random() < 0.5:
+        sp["cons"]["ct"] = {"k": "s", "lhs": ["trace", mats[0]["name"]], "sense": r.choice(["<=", ">="]), "rhs": ["num", r.choice([1.0, 2.0, 3.0])]}
+        ckinds["ct"] = "lin"
+    vecs = [d for d in sp["vars"] if d["kind"] == "vector"]
+    if (vecs or mats) and r.random() < 0.2:
+        # objectives the library can build and evaluate but not analyse / compile (sum of an element-wise
+        # power or function of a plain vector; Frobenius norm): every solve must raise, every time, and
+        # leave the model usable
+        if vecs and (not mats or r.random() < 0.7):
+            v = ["vec", vecs[0]["name"]]
+            sp["exprs"]["ou"] = ["vsum", ["vpow", v, 2]] if r.random() < 0.5 else ["vsum", ["vfn", r.choice(["exp", "cosh"]), v]]
+        else:
+            sp["exprs"]["ou"] = ["+", ["frob", mats[0]["name"]], ["num", 1.0]]
+        okinds["ou"] = "nl"
     if mats and r.random() < 0.6:
         # evaluates fine but has no compiler case: every solve that compiles it must raise, every time
         sp["cons"]["cu"] = {"k": "s", "lhs": ["msum", mats[0]["name"]], "sense": "<=", "rhs": ["num", r.choice([1.0, 3.0, 6.0])]}
